@@ -221,10 +221,10 @@ def range_tables(run):
         ok = False
         if pc and fc and size_store:
             bi, t = pc[0]
-            sw2 = T.switch_after(h, t["target"], t["dest"]["l"]) if t["target"] is not None and not t["dest"]["p"] else None
+            sw2 = T.bool_test(h, t)
             if sw2:
-                treg = T.dominated_region(h, sw2[0], t["target"])
-                freg = T.dominated_region(h, sw2[1], t["target"])
+                treg = T.dominated_region(h, sw2[0], sw2[2])
+                freg = T.dominated_region(h, sw2[1], sw2[2])
                 ok = all(b in treg for b in fc) and all(b in freg for b, d in size_store) and all(re.match(r"^param:\w+$", d) and _is_usize_param(h, d) for b, d in size_store)
         run.check(ok, R, R + "|constrain", h.loc(), "a value failing the predicate becomes FailedConstraint; a passing value gets size = Some(N)",
                   "check_and_constrain_value_for_integer_type no longer maps failure to FailedConstraint and success to size = Some(N)")
@@ -345,11 +345,28 @@ def data_width(run):
             if d.endswith(".elem_size"):
                 return ("none", None)
             return None
-        d = describe_origin(f, f.origin_local(f.copy_root(dl)))
+        root = f.copy_root(dl)
+        d = describe_origin(f, f.origin_local(root))
         if d.endswith(".is_last_iteration"):
             return ("last", None)
         if d.endswith(".encoding_statically_known"):
             return ("static", None)
+        # a named `is_last_iteration || encoding_statically_known`: a bool assigned `true` on one edge and the other flag
+        # on the other
+        ds = f.full_defs(root)
+        if len(ds) >= 2 and all(x[0] == "stmt" and x[3]["k"] == "assign" and x[3]["rv"]["k"] == "use" for x in ds):
+            parts = set()
+            for x in ds:
+                op = x[3]["rv"]["op"]
+                if const_int(op) == 1:
+                    parts.add("true")
+                elif op_place(op) is not None:
+                    parts.add(describe_origin(f, f.origin_op(op)).rsplit(".", 1)[-1])
+                else:
+                    parts.add("?")
+            if parts <= {"true", "is_last_iteration", "encoding_statically_known"} and ("is_last_iteration" in parts or "encoding_statically_known" in parts):
+                # which flag decided the `true` assignment: the switch that dominates it
+                return ("either", None)
         return None
 
     pass_edge = None
@@ -382,6 +399,16 @@ def data_width(run):
                         if static is not None and static != val:
                             continue
                         ns = val
+                    elif a[0] == "either":
+                        if val == 0:
+                            if last == 1 or static == 1:
+                                continue
+                            nl, ns = 0, 0
+                        else:
+                            if last == 0 and static == 0:
+                                continue
+                            if last is None and static is None:
+                                nl = 1
                     elif a[0] == "none":
                         listed0 = any(vv == "0" for vv, _ in tt["targets"])
                         isnone = 1 if (v == "0" or (v == "else" and not listed0)) else 0
